@@ -1287,10 +1287,25 @@ std::ostream& expression_t::print(std::ostream& os, bool old) const
         }
         break;
 
-    case ARRAY:
+    case ARRAY: {
+        // a process-set lookup `P(i, j)` is built as nested ARRAY nodes over the name of the set (see expr_call_end)
+        auto base = *this;
+        std::vector<expression_t> args;
+        while (base.get_kind() == ARRAY) {
+            args.push_back(base.get(1));
+            base = base.get(0);
+        }
+        if (base.get_kind() == IDENTIFIER && base.get_symbol() != symbol_t() && base.get_symbol().get_type().is(PROCESS_SET)) {
+            base.print(os, old) << '(';
+            for (auto it = args.rbegin(); it != args.rend(); ++it)
+                it->print(it == args.rbegin() ? os : os << ", ", old);
+            os << ')';
+            break;
+        }
         embrace_strict(os, old, get(0), precedence);
         get(1).print(os << '[', old) << ']';
         break;
+    }
 
     case UNARY_MINUS: embrace(os << '-', old, get(0), precedence); break;
 
